@@ -308,6 +308,51 @@ class C03(Check):
                 # total forward log-Jacobian = network ladj + data-transform log-Jacobian
                 prove_logj(ctx, Y[i], X[i], lj_f[i] - gl[i], "c03/forward_logj")
 
+            # translator validation: log_prob on the real wrapper + real FlowTransform
+            # with NumPy, base density given in closed form, under a model
+            def Bf(*a):
+                return -0.5 * sum(v * v for v in a) - 0.3
+
+            def runner(env):
+                import aspire.transforms as T
+
+                l = np.asarray(env_array(env, "lo", (d,)))
+                u = np.asarray(env_array(env, "hi", (d,), default=1.0))
+                params = [f"p{k}" for k in range(d)]
+                t2 = T.FlowTransform(
+                    parameters=params,
+                    prior_bounds={p: [l[k], u[k]] for k, p in enumerate(params)} if bounded else None,
+                    bounded_to_unbounded=bounded is not None,
+                    bounded_transform=bounded or "logit",
+                    xp=np,
+                    eps=EPS,
+                )
+                t2.fit(np.asarray(env_array(env, "a", (3, d))))
+                mm = np.asarray(env_array(env, "mu", (d,)))
+                ss = np.asarray(env_array(env, "sg", (d,), default=1.0))
+                t2._affine_transform.fit(np.stack([mm - ss, mm + ss]))
+
+                class N2:
+                    d_ = d
+
+                    def base(self, y):
+                        return np.array([Bf(*r) for r in np.asarray(y, float)])
+
+                net2 = N2()
+                net2.d = d
+                global sx
+                real = sx
+                try:
+                    sx = types.SimpleNamespace(asarray=lambda v, **k: np.asarray(v, dtype=float))
+                    fl2 = zuko_shell(net2, t2) if cfg["backend"] == "zuko" else flowjax_shell(net2, t2)
+                    npx = types.ModuleType("npx")
+                    npx.asarray = lambda v, **k: np.asarray(v, dtype=float)
+                    return {"lp": np.asarray(fl2.log_prob(np.asarray(env_array(env, "x", (b, d))), xp=npx))}
+                finally:
+                    sx = real
+
+            ctx.validate({"lp": sx.terms(lp)}, runner, fns={"B": Bf}, tol=1e-5)
+
         return h
 
     def to_cex(self, fl):
